@@ -88,11 +88,12 @@ type C1 struct {
 	TypedNilDial bool          // FDialFail: the dial function returns a typed nil connection together with its error
 
 	Hooks        bool
-	LongSilence  bool   // C07: one gap of 50-93 % of the read timeout
-	Then         *C1    // a follow-up call on the same client (same kind, own request and reply script)
-	KeepStale    bool   // follow-up call: bytes the previous exchange left unread (or that arrive late) are still there
-	LateRest     []byte // first call, stall faults: the rest of the reply arrives after the call has given up
-	ObserveParse bool   // network clients only: build with modbus.NewClient and wrapped parse functions to see parser invocations
+	LongSilence  bool          // C07: one gap of 50-93 % of the read timeout
+	Then         *C1           // a follow-up call on the same client (same kind, own request and reply script)
+	KeepStale    bool          // follow-up call: bytes the previous exchange left unread (or that arrive late) are still there
+	IdleBefore   time.Duration // follow-up call: the client sits idle this long before the call
+	LateRest     []byte        // first call, stall faults: the rest of the reply arrives after the call has given up
+	ObserveParse bool          // network clients only: build with modbus.NewClient and wrapped parse functions to see parser invocations
 }
 
 type hookRec struct {
@@ -342,6 +343,9 @@ func RunC1(rc *RunCtx, sc *C1) *C1Outcome {
 			}
 			cl.unlock()
 			cur, curOut = next, o
+			if next.IdleBefore > 0 && tk.Sleep("idle-between-calls", next.IdleBefore) == Drained {
+				return
+			}
 			t1 := s.Now()
 			// follow-up calls get a fresh context: a deadline left over from the first call could fall on the follow-up's own
 			// timeout instant, and Go picks at random when both are ready in one select (not a tape decision)
